@@ -26,6 +26,7 @@ _TS = None
 
 class C04(framework.PropertyCheck):
     pid = 'C04'
+    theorem_coverage = True
     quick_cases = 300
     thorough_cases = 6000
     rule = ('random conditions of the trace-reading fragment (incl. @, x/z-valued signals, scoped/grouped references, virtual signals, user '
